@@ -3,48 +3,55 @@
 (* the real code):                                                            *)
 (*   Parse    resolver: argument-count check (resolve.go:472-482)             *)
 (*   Setup    interp: validate Funcs (functions.go checkNativeFunc)           *)
-(*   Call     vm CallNative -> callNative                                     *)
+(*   Others   the calls of the other functions of the table made before       *)
+(*   Call     vm CallNative -> callNative: the function the index reaches     *)
 (*   Convert  toNative for every argument, zero-fill                          *)
 (*   Return / Abort   fromNative of the result / the function's error         *)
 (* and signature/argument universes shared by MC_Native and Gen_Native.       *)
 EXTENDS Native
 
-VARIABLES phase, sig, args, called, recv, printed
-nvars == <<phase, sig, args, called, recv, printed>>
+VARIABLES phase, sig, args, called, shadow, cf, recv, printed, ran
+nvars == <<phase, sig, args, called, shadow, cf, recv, printed, ran>>
+fixed == <<sig, args, called, shadow, cf>>      \* the case: never changes
 
 Finals == {"parse-error", "setup-error", "not-called", "returned", "aborted"}
 
 Parse ==
   /\ phase = "start"
   /\ phase' = IF called /\ ~IsVariadic(sig) /\ Len(args) > NumParams(sig) THEN "parse-error" ELSE "parsed"
-  /\ UNCHANGED <<sig, args, called, recv, printed>>
+  /\ UNCHANGED <<fixed, recv, printed, ran>>
 Setup ==
   /\ phase = "parsed"
-  /\ phase' = IF ~ValidSig(sig) THEN "setup-error" ELSE IF called THEN "ready" ELSE "not-called"
-  /\ UNCHANGED <<sig, args, called, recv, printed>>
+  /\ phase' = IF ~ValidSig(sig) THEN "setup-error" ELSE IF called THEN "others" ELSE "not-called"
+  /\ UNCHANGED <<fixed, recv, printed, ran>>
+OtherCalls ==
+  /\ phase = "others" /\ phase' = "ready"
+  /\ ran' = RanBefore(shadow)
+  /\ UNCHANGED <<fixed, recv, printed>>
 Call ==
   /\ phase = "ready" /\ phase' = "called"
-  /\ UNCHANGED <<sig, args, called, recv, printed>>
+  /\ ran' = Append(ran, Dispatch(FALSE, shadow, sig.name))
+  /\ UNCHANGED <<fixed, recv, printed>>
 Convert ==
   /\ phase = "called" /\ phase' = "converted"
-  /\ recv' = Received(sig, args)
-  /\ UNCHANGED <<sig, args, called, printed>>
+  /\ recv' = ReceivedCf(sig, args, cf)
+  /\ UNCHANGED <<fixed, printed, ran>>
 Return ==
   /\ phase = "converted" /\ sig.err # "err" /\ phase' = "returned"
-  /\ printed' = Outcome(sig, args, called).printed
-  /\ UNCHANGED <<sig, args, called, recv>>
+  /\ printed' = OutcomeFull(sig, args, called, shadow, cf).printed
+  /\ UNCHANGED <<fixed, recv, ran>>
 Abort ==
   /\ phase = "converted" /\ sig.err = "err" /\ phase' = "aborted"
-  /\ UNCHANGED <<sig, args, called, recv, printed>>
-NNext == Parse \/ Setup \/ Call \/ Convert \/ Return \/ Abort
+  /\ UNCHANGED <<fixed, recv, printed, ran>>
+NNext == Parse \/ Setup \/ OtherCalls \/ Call \/ Convert \/ Return \/ Abort
 
 \* the outcome the machine ended with, in the shape of Native!Outcome
 MachineOutcome ==
   CASE phase = "parse-error" -> [o |-> "parse-error"]
     [] phase = "setup-error" -> [o |-> "setup-error"]
     [] phase = "not-called"  -> [o |-> "not-called"]
-    [] phase = "aborted"     -> [o |-> "abort", recv |-> recv]
-    [] phase = "returned"    -> [o |-> "ok", recv |-> recv, printed |-> printed]
+    [] phase = "aborted"     -> [o |-> "abort", recv |-> recv, ran |-> ran, dlines |-> OtherLines(shadow)]
+    [] phase = "returned"    -> [o |-> "ok", recv |-> recv, ran |-> ran, dlines |-> OtherLines(shadow), printed |-> printed]
 
 \* ---- universes ----
 ResModes(params, variadic) ==
